@@ -136,8 +136,10 @@ Cyclic(E) == \E n \in Reach(E, {1}) : n \in Reach(E, Succ(E, n)) /\ Succ(E, n) #
 Guard == 100
 \* requirement on the model itself: with the guard the depth is bounded whatever the graph
 DepthBound(E) == IF Cyclic(E) THEN Guard + 1 ELSE Cardinality(Reach(E, {1}))
-CallCells == { [k |-> "calls", edges |-> {<<e[1], e[2]>> : e \in E}, nreq |-> n, cyclic |-> Cyclic(E), depth |-> DepthBound(E)]
-                 : E \in EdgeSets, n \in 1..MaxReq }
+\* functional: the three subroutines are functional subroutines (STRING) and an edge is a call expression - the
+\* interpreter keeps a second copy of the frame / guard logic for those (ProcessFunctionSubroutine)
+CallCells == { [k |-> "calls", edges |-> {<<e[1], e[2]>> : e \in E}, nreq |-> n, functional |-> f, cyclic |-> Cyclic(E), depth |-> DepthBound(E)]
+                 : E \in EdgeSets, n \in 1..MaxReq, f \in BOOLEAN }
 PredictCalls(c) == IF c.cyclic THEN "error" ELSE "value"
 
 (* include graphs: node 0 = main, 1..2 = modules m1, m2; an edge i -> j is `include "mj";` (j = 0: include "main") *)
